@@ -16,7 +16,7 @@ from ..sched import run_concurrent
 from ..world import GITAI, session_hash
 
 SCENARIOS = ["ckpt_distinct_files", "ckpt_distinct_files", "ckpt_same_file", "ckpt_vs_commit", "commits_two_worktrees",
-             "rebase_vs_commit", "ckpt_three"]
+             "rebase_vs_commit", "ckpt_three", "ckpt_after_head_moved", "first_sync_fetch_vs_commit", "first_sync_fetch_vs_commit"]
 
 
 def ai_dirs(w, repo):
@@ -75,7 +75,8 @@ class C11(Prop):
             "projected on (party, point) names; non-trivial = at least two parties were interleaved")
     assumptions = ["a real git subprocess is atomic for the scheduler", "BLOCKING_MAX_THREADS=1 serialises git-ai's "
                    "internal worker pool (one schedulable thread per process)"]
-    expected_probes = ["interleaved", "scenario.ckpt_distinct_files", "scenario.rebase_vs_commit", "point.ckpt.append.before_write",
+    expected_probes = ["interleaved", "scenario.ckpt_distinct_files", "scenario.rebase_vs_commit", "scenario.ckpt_after_head_moved",
+                       "scenario.first_sync_fetch_vs_commit", "point.ckpt.append.before_write",
                        "point.git:fast-import", "policy.pct", "policy.stale"]
 
     def header(self, rng, tier, index):
@@ -125,6 +126,51 @@ class C11(Prop):
             edit(r0, "f1.txt", "s1")
             edit(r0, "f1.txt", "s2")
             return [ckpt("p1", r0, ["f1.txt"], "s1", 0), ckpt("p2", r0, ["f1.txt"], "s2", 1)], closing
+        if sc == "ckpt_after_head_moved":
+            # a partial commit (AI lines of f2 stay pending, so post_commit writes INITIAL for the new HEAD) and another
+            # agent's report on f3 that only starts once the commit's own git has moved HEAD: the report resolves the
+            # NEW head and must survive the rest of post_commit
+            w.ckpt_human(r0, ["f1.txt", "f2.txt", "f3.txt"])
+            edit(r0, "f1.txt", "s1")
+            edit(r0, "f2.txt", "s1")
+            w.ckpt_ai(r0, ["f1.txt", "f2.txt"], "s1")
+            w.raw_git(r0, "add", "f1.txt")
+            edit(r0, "f3.txt", "s2")
+            ex.gen_state["hold"] = {"p2": ("p1", ":proxied")}
+            return [("p1", [gitw, "commit", "-q", "-m", "c1"], r0, {}), ckpt("p2", r0, ["f3.txt"], "s2", 1)], closing
+        if sc == "first_sync_fetch_vs_commit":
+            # a clone that has never synced notes (made with plain git) fetches while it commits its first AI work:
+            # the remote's notes arrive, the clone's own first note must not be lost
+            remote = os.path.join(w.root, "remote.git")
+            os.makedirs(remote)
+            w.raw_git(remote, "init", "-q", "--bare", "-b", "main")
+            w.raw_git(r0, "remote", "add", "origin", remote)
+            w.ckpt_human(r0, ["f1.txt"])
+            edit(r0, "f1.txt", "s1")
+            w.ckpt_ai(r0, ["f1.txt"], "s1")
+            w.git(r0, "add", "-A")
+            w.git(r0, "commit", "-q", "-m", "upstream ai work")
+            w.git(r0, "push", "-q", "-u", "origin", "main")
+            w.tick(1000)
+            cl = os.path.join(w.root, "cl")
+            w.raw_git(w.root, "clone", "-q", remote, cl)
+            ex.repos["cl"] = cl
+            ex.gen_state["primary"] = cl
+            # somebody else publishes one more commit with a note, so that the fetch has something to bring
+            w.ckpt_human(r0, ["f2.txt"])
+            edit(r0, "f2.txt", "s1")
+            w.ckpt_ai(r0, ["f2.txt"], "s1")
+            w.git(r0, "add", "-A")
+            w.git(r0, "commit", "-q", "-m", "more upstream ai work")
+            w.git(r0, "push", "-q", "origin", "main")
+            w.tick(1000)
+            w.ckpt_human(cl, ["f3.txt"])
+            edit(cl, "f3.txt", "s2")
+            w.ckpt_ai(cl, ["f3.txt"], "s2")
+            w.raw_git(cl, "add", "-A")
+            return [("p1", [gitw, "fetch", "-q", "origin"], cl, {}),
+                    ("p2", [gitw, "commit", "-q", "-m", "first local ai work"], cl, {})], \
+                [(cl, ["add", "-A"]), (cl, ["commit", "-q", "-m", "closing", "--allow-empty"])]
         if sc == "ckpt_vs_commit":
             w.ckpt_human(r0, ["f1.txt", "f2.txt"])
             edit(r0, "f1.txt", "s1")
@@ -169,7 +215,7 @@ class C11(Prop):
 
     def observe(self, ex, closing, results):
         w = ex.w
-        r0 = ex.repos["r0"]
+        r0 = ex.gen_state.get("primary") or ex.repos["r0"]
         def files_only(m):
             return {c: (v["files"] if isinstance(v, dict) else v) for c, v in m.items()}
         out = {"exit": {l: r["code"] for l, r in sorted(results.items())}, "journals": journals(w, r0),
@@ -190,7 +236,8 @@ class C11(Prop):
         cmds, closing = self.build(ex, cfg["scenario"])
         w = ex.w
         w.snapshot("pre")
-        run = run_concurrent(w, cmds, rng=rng, choices=choices, policy=cfg["policy"])
+        hold = ex.gen_state.get("hold")
+        run = run_concurrent(w, cmds, rng=rng, choices=choices, policy=cfg["policy"], hold=hold)
         conc = self.observe(ex, closing, run["results"])
         labels = [c[0] for c in cmds]
         # distinct interleaving measure + probes
@@ -212,6 +259,8 @@ class C11(Prop):
         for perm in itertools.permutations(range(len(cmds))):
             w.restore("pre")
             results = {}
+            if hold and [cmds[i][0] for i in perm][0] in hold:
+                continue        # an order the scenario's start constraint excludes
             for i in perm:
                 r = run_concurrent(w, [cmds[i]], rng=None, choices=None)
                 results.update(r["results"])
